@@ -96,8 +96,13 @@ PROPS = {
              "runs_quick": 40, "time_quick": 25, "k_per_base_quick": 40, "runs_thorough": 600, "time_thorough": 400},
             {"name": "spki-alloc", "kind": "allocsweep", "scn": "spki", "variant": "asan", "opts": {"maxops": 80, "small": 0},
              "runs_quick": 40, "time_quick": 25, "k_per_base_quick": 40, "runs_thorough": 600, "time_thorough": 400},
+            {"name": "world-ledger", "kind": "random", "scn": "world", "variant": "asan", "opts": {"focus": "C07"},
+             "runs_quick": 400, "time_quick": 20, "runs_thorough": 30000, "time_thorough": 300},
+            {"name": "world-alloc", "kind": "allocsweep", "scn": "world", "variant": "asan", "opts": {"focus": "C18", "single": 1, "maxx": 6},
+             "runs_quick": 40, "time_quick": 40, "k_per_base_quick": 30, "runs_thorough": 400, "time_thorough": 500},
         ],
         "min_counters": {"allocsweep_points": 200},
+        "expected_probes": ["probe_alloc_failure_inside_sync"],
         "exhaustive_note": "thorough tier: every allocation index of every base history is failed once (exhaustive per base history)",
         "assumptions": ["single allocation failure per run (plus random multi-failure swarm runs)"],
     },
